@@ -354,6 +354,8 @@ func (ex *Exec) callSSA(caller *frame, callpos token.Pos, fn *ssa.Function, args
 	if ex.depth > ex.eng.MaxDepth {
 		panic(pathEnd{kind: endUnwind, msg: "interpreter call depth bound exceeded"})
 	}
+	prevTop := ex.top
+	ex.top = fr
 	defer func() { ex.depth-- }()
 	if fn.Parent() == nil {
 		name := fn.String()
@@ -383,6 +385,7 @@ func (ex *Exec) callSSA(caller *frame, callpos token.Pos, fn *ssa.Function, args
 	for fr.block != nil {
 		ex.runFrame(fr)
 	}
+	ex.top = prevTop
 	return fr.result
 }
 
@@ -398,6 +401,7 @@ func (ex *Exec) runFrame(fr *frame) {
 			// pathEnd and engine-internal errors propagate untouched
 			panic(r)
 		}
+		ex.top = fr
 		fr.panicking = true
 		fr.panic = r
 		fr.runDefers()
@@ -475,12 +479,8 @@ func (ex *Exec) doRecover(caller *frame) value {
 // panicValue converts an engine panic payload into the interface value recover() returns.
 func (ex *Exec) panicValue(v value) value {
 	switch v := v.(type) {
-	case runtimeError:
-		return iface{t: ex.eng.rtErrorString, v: string(v)}
-	case typeAssertError:
-		return iface{t: ex.eng.rtPlainError, v: string(v)}
-	case plainError:
-		return iface{t: ex.eng.rtPlainError, v: string(v)}
+	case runtimeError, typeAssertError, plainError:
+		return ex.errValue(ex.panicToErr(v))
 	case iface:
 		return v
 	}
